@@ -201,3 +201,65 @@ vharness! {
         std::mem::forget(n);
     }
 }
+
+// ------------------------------------------------------------ C01-O1 (local form): the DPOR rule inside schedule()
+
+vharness! {
+    /// @prop C01 @tier quick @mode fast @cost 2 @timeout 2400 @funcs Execution::schedule,Store::last_dependent_access,Access::happens_before,Path::backtrack,Schedule::backtrack,Store::set_last_access @bounds 2 threads, both with a pending operation (symbolic: load/store/rmw) on one atomic whose last access / last non-load access records (made at decision 0) carry symbolic DPOR clocks; symbolic DPOR clocks of both threads; one earlier scheduling decision [thread 0 active, thread 1 skipped]
+    /// the DPOR rule: at a scheduling point, for every thread whose pending operation is dependent with an earlier access that does not happen-before it (DPOR clocks), a backtrack point for that thread is requested at that access's decision; otherwise none. Afterwards the chosen thread's DPOR clock absorbs the access it depends on, ticks, and the operation is recorded as the object's last access at the new decision.
+    #[cfg_attr(kani, kani::unwind(8))]
+    fn schedule_dpor_rule() {
+        use crate::rt::atomic::verif as av;
+        let mut e = mk_exec_caps(2, 2, 1);
+        tv::activate(&mut e.threads, 0);
+        // earlier decision 0: thread 0 ran, thread 1 was runnable but not explored yet
+        crate::rt::path::verif::seed_schedule_active0_skip1(&mut e.path);
+        // the atomic with its access records
+        let a_any: [u16; MAX_THREADS] = kani::any();
+        let a_nl: [u16; MAX_THREADS] = kani::any();
+        let has_nl: bool = kani::any();
+        let r = e.objects.insert(av::state_with_accesses(Some((0, a_any)), if has_nl { Some((0, a_nl)) } else { None }));
+        let idx = crate::rt::object::verif::ref_index(r);
+        let k0: u8 = kani::any();
+        let k1: u8 = kani::any();
+        kani::assume(k0 <= 2 && k1 <= 2);
+        let d0: [u16; MAX_THREADS] = kani::any();
+        let d1: [u16; MAX_THREADS] = kani::any();
+        // clocks far from the u16 limit (overflow of a clock component is outside the claim)
+        kani::assume(d0[0] < u16::MAX && a_any[0] < u16::MAX && a_nl[0] < u16::MAX);
+        tv::th(&mut e.threads, 0).dpor_vv = vv(d0);
+        tv::th(&mut e.threads, 1).dpor_vv = vv(d1);
+        tv::th(&mut e.threads, 0).operation = Some(crate::rt::object::verif::op(idx, crate::rt::object::Action::Atomic(av::action(k0))));
+        tv::th(&mut e.threads, 1).operation = Some(crate::rt::object::verif::op(idx, crate::rt::object::Action::Atomic(av::action(k1))));
+
+        let switched = e.schedule();
+
+        assert!(!switched);
+        // reference: a load depends on the last non-load access, everything else on the last access
+        let dep1 = if k1 == 0 { if has_nl { Some(a_nl) } else { None } } else { Some(a_any) };
+        let race1 = match dep1 { Some(c) => !le(&c, &d1), None => false };
+        // thread 1's state at decision 0: Pending iff a backtrack point was requested for it
+        assert!(crate::rt::path::verif::thread_code_at(&e.path, 0, 1) == if race1 { 3 } else { 1 });
+        assert!(crate::rt::path::verif::thread_code_at(&e.path, 0, 0) == 4);
+        // the chosen thread (0) absorbs its dependence and ticks
+        let dep0 = if k0 == 0 { if has_nl { Some(a_nl) } else { None } } else { Some(a_any) };
+        let mut exp = match dep0 { Some(c) => max_raw(&d0, &c), None => d0 };
+        exp[0] += 1;
+        let now0 = vv_raw(&tv::th_ref(&e.threads, 0).dpor_vv);
+        assert!(le(&now0, &exp) && le(&exp, &now0));
+        let now1 = vv_raw(&tv::th_ref(&e.threads, 1).dpor_vv);
+        assert!(le(&now1, &d1) && le(&d1, &now1));
+        // ... and is recorded as the last access, at the decision just taken (index 1)
+        let (la, lnl) = av::accesses(r.get(&e.objects));
+        assert!(la.is_some() && la.unwrap().0 == 1 && le(&la.unwrap().1, &exp) && le(&exp, &la.unwrap().1));
+        if k0 == 0 {
+            assert!(lnl.map(|x| x.0) == if has_nl { Some(0) } else { None });
+        } else {
+            assert!(lnl.is_some() && lnl.unwrap().0 == 1);
+        }
+        kani::cover!(race1 && k1 == 0, "a pending load races with an earlier store");
+        kani::cover!(!race1 && dep1.is_some(), "dependent but ordered: no backtrack point");
+        kani::cover!(k0 == 0 && k1 == 0 && !has_nl, "two loads: independent");
+        std::mem::forget(e);
+    }
+}
